@@ -153,6 +153,9 @@ def view_descs(shape, palette):
     out.append(['tuple', [['a', [0, s - 1, 0]] for s in shape]])
     out.append(['tuple', [['a', [[0, s - 1], [s - 1, 0]]] for s in shape]])
     out.append(['tuple', [['a', [(j + i) % s for j in range(4)]] for i, s in enumerate(shape)]])
+    # 2-d index arrays that are NOT C-contiguous (a transposed (2, 3) array): numpy hands the layout of the index
+    # on to the result, so whatever flattens and re-shapes along the way must do both in the same order
+    out.append(['tuple', [['f', [[0, s - 1, (i + 1) % s], [s - 1, 0, i % s]]] for i, s in enumerate(shape)]])
     # the same kind of index arrays, but broadcast (zero strides), as np.meshgrid(copy=False) and the
     # fixed-resolution buffer produce them: axis i varies along array axis i % 2 only
     out.append(['tuple', [['b', [0, s - 1, 1 % s], i % 2] for i, s in enumerate(shape)]])
@@ -172,6 +175,8 @@ def make_entry(e):
         return Ellipsis
     if e[0] == 'a':
         return np.array(e[1], dtype=int)
+    if e[0] == 'f':
+        return np.array(e[1], dtype=int).T
     if e[0] == 'b':         # 2-d (3, 3) index array that is constant (stride 0) along one axis
         v = np.array(e[1], dtype=int)
         return np.broadcast_to(v[:, None] if e[2] == 0 else v[None, :], (len(v), len(v)))
@@ -206,7 +211,7 @@ def view_family(desc):
     empty = any(e[0] == 's' and e[1] == 0 and e[2] == 0 for e in entries)
     if kinds <= {'s', 'i'}:
         return 'basic' + ('+empty' if empty else '')
-    if kinds <= {'a', 'b'}:
+    if kinds <= {'a', 'b', 'f'}:
         return 'index-arrays'
     return 'ellipsis-tuple'
 
@@ -217,7 +222,7 @@ def view_is_link_domain(desc):
     happens to bare ndarrays there is C04's subject (and world-values below covers bare masks directly)."""
     if desc[0] == 'mask':
         return False
-    if desc[0] == 'tuple' and len(desc[1]) == 1 and desc[1][0][0] in ('a', 'b'):
+    if desc[0] == 'tuple' and len(desc[1]) == 1 and desc[1][0][0] in ('a', 'b', 'f'):
         return False
     return True
 
